@@ -12,5 +12,5 @@ echo "-- demo WITHOUT patch"; run "$@"
 git apply /tmp/mut-$id-out/$m/patch.diff || exit 2
 echo "-- demo WITH patch"; run "$@"
 echo "-- existing tests of $crate WITH patch"
-CARGO_NET_OFFLINE=true cargo test --offline --target-dir /repo/target -p "$crate" "$@" --lib 2>&1 | grep -E "^test result|^error(\[|:)" | head -3
+CARGO_NET_OFFLINE=true cargo test --offline --target-dir /repo/target -p "$crate" "$@" --lib 2>&1 | grep -E "^test result|^error(\[|:)|^test .* FAILED" | head -6
 git checkout -q -f --detach "$(git -C /repo rev-parse HEAD)"; git clean -fdq
